@@ -311,7 +311,17 @@ func (fr *FnRun) havocReachable(st *State, v Val, seen map[*Obj]bool) {
 			st.heap[x.Obj] = ex.ghostStruct(x.Obj.T, ex.fresh(x.Obj.Name))
 		}
 	case *FuncV:
-		for _, f := range x.Free {
+		fn, _ := x.Fn.(*ssa.Function)
+		for i, f := range x.Free {
+			// a captured variable's cell can only be reassigned by the closure's own code
+			if p, ok := f.(*PtrV); ok && fn != nil && i < len(fn.FreeVars) && p.Obj != nil && len(p.Path) == 0 && !storesToFreeVar(fn, fn.FreeVars[i]) {
+				if cur, ok := st.heap[p.Obj]; ok {
+					fr.havocReachable(st, cur, seen)
+				} else {
+					fr.havocReachable(st, ex.heapGet(st, p.Obj), seen)
+				}
+				continue
+			}
 			fr.havocReachable(st, f, seen)
 		}
 		if x.Recv != nil {
@@ -1023,4 +1033,33 @@ func (fr *FnRun) ghostHolder(st *State, base Val, name string) (*PtrV, *Obj) {
 		return x, nil
 	}
 	return nil, nil
+}
+
+// storesToFreeVar: does fn (or a closure nested in it that captures the same cell) assign to the captured variable itself?
+func storesToFreeVar(fn *ssa.Function, fv *ssa.FreeVar) bool {
+	for _, b := range fn.Blocks {
+		for _, in := range b.Instrs {
+			switch x := in.(type) {
+			case *ssa.Store:
+				if x.Addr == ssa.Value(fv) {
+					return true
+				}
+			case *ssa.MakeClosure:
+				inner := x.Fn.(*ssa.Function)
+				for i, bnd := range x.Bindings {
+					if bnd == ssa.Value(fv) && i < len(inner.FreeVars) && storesToFreeVar(inner, inner.FreeVars[i]) {
+						return true
+					}
+				}
+			case *ssa.Call:
+				// the cell's address escaping as an ordinary argument
+				for _, a := range x.Common().Args {
+					if a == ssa.Value(fv) {
+						return true
+					}
+				}
+			}
+		}
+	}
+	return false
 }
